@@ -138,7 +138,7 @@ func DriveXList(r *rec.Rec, rng *rand.Rand, run, ops int, variant string) {
 			f = func() { l.Clear() }
 		default:
 			// drain: remove everything one by one from a random end
-			for len(in) > 0 && !dead {
+			for tries := 0; len(in) > 0 && !dead && tries < 64; tries++ { // bounded: a Remove that removes nothing must not spin
 				n := in[0]
 				if rng.Intn(2) == 0 {
 					n = in[len(in)-1]
